@@ -273,6 +273,7 @@ func (cr *checkRun) writeEvidence(locked map[string]bool, violations int, known 
 	var solverMs int64
 	discharged := 0
 	nProof := 0
+	genTotal, genOK := 0, 0
 	var samples []sample
 	trusted := map[string]bool{}
 	notes := map[string]bool{}
@@ -309,8 +310,15 @@ func (cr *checkRun) writeEvidence(locked map[string]bool, violations int, known 
 			}
 			continue
 		}
-		nProof++
+		genTotal++
+		if o.ok() {
+			genOK++
+		}
 		solverMs += o.Ms
+		if !locked[o.Name] {
+			continue // generated but not part of the claim (see unlocked_undecided)
+		}
+		nProof++
 		if o.ok() {
 			discharged++
 			perBackend[o.Backend]++
@@ -359,6 +367,8 @@ func (cr *checkRun) writeEvidence(locked map[string]bool, violations int, known 
 			"obligations":              nProof,
 			"discharged":               discharged,
 			"locked":                   len(locked),
+			"generated_total":          genTotal,
+			"generated_discharged":     genOK,
 			"checker_cmd":              fmt.Sprintf("bin/gfverify check --property %s --tier %s", cr.prop, cr.tier),
 			"trusted_base":             tb,
 			"functions_under_contract": funcs,
@@ -372,7 +382,7 @@ func (cr *checkRun) writeEvidence(locked map[string]bool, violations int, known 
 			"contract_sources":         contractSrc,
 			"samples":                  samples,
 			"notes":                    cr.spec.Notes,
-			"explanation":              "every obligation is a separate SMT query generated from the current source of the functions listed; 'discharged' counts unsat answers (plus syntactically trivial goals); vacuity checks are not counted as obligations",
+			"explanation":              "every obligation is a separate SMT query generated from the current source of the functions listed; 'obligations' counts the obligations this check claims (the locked set in obligations.lock.json, all regenerated on this run), 'discharged' those of them answered unsat (or syntactically trivial); obligations that are generated but not claimed are counted in generated_total and named in unlocked_undecided; vacuity checks are not counted",
 		},
 		"assumptions": assumptions,
 	}
